@@ -180,4 +180,60 @@ let run line =
   end;
   Buffer.contents b
 
-let () = register "main" run
+(* sequences: "seq\t<mode>\t<go hex>\t<step>\t<step>..." with step = "reset" | sexp of a case.
+   The encoder state is threaded through the values and reset where the script says; the reader's
+   reference/class tables are threaded over each segment in the same way. *)
+let run_seq line =
+  match String.split_on_char '\t' line with
+  | _ :: mode :: gohex :: steps ->
+    let simple = (mode = "simple") in
+    let b = Buffer.create 256 in
+    let add k v = Buffer.add_string b (k ^ "=" ^ v ^ " ") in
+    let st = ref Enc.einit in
+    let model_bytes = Buffer.create 256 in
+    let segments = ref [] and cur = ref [] in   (* per segment: list of (expected abs option) in order *)
+    let ok = ref true in
+    Stdlib.List.iter (fun step ->
+      if step = "reset" then (st := Enc.einit; segments := Stdlib.List.rev !cur :: !segments; cur := [])
+      else begin
+        let (hp, root) = case_of (parse_sx step) in
+        (match Enc.enc simple hp fuel !st root with
+         | Enc.EOk (st', w) -> st := st'; Buffer.add_string model_bytes (hex_of_bytes (Wire.emit w))
+         | _ -> ok := false);
+        cur := (Abs.abs_top hp fuel root) :: !cur
+      end) steps;
+    segments := Stdlib.List.rev (Stdlib.List.rev !cur :: !segments);
+    add "model" (if !ok then "ok" else "fail");
+    add "model_hex" (Buffer.contents model_bytes);
+    if gohex <> "-" then begin
+      let gb = bytes_of_hex gohex in
+      let nvals = Stdlib.List.fold_left (fun a seg -> a + Stdlib.List.length seg) 0 !segments in
+      (match Wire.parse_seq (nat_of_int (nvals + 1)) gb with
+       | Some ws when Stdlib.List.length ws = nvals ->
+           add "go_parse" "ok";
+           add "go_tok" (if Stdlib.List.for_all Wire.tok_ok ws then "1" else "0");
+           (* split the parsed values over the segments and denote each segment with shared tables *)
+           let rest = ref ws and all_eq = ref true and den_ok = ref true in
+           Stdlib.List.iter (fun seg ->
+             let n = Stdlib.List.length seg in
+             let rec take k l = if k = 0 then ([], l) else (match l with x :: r -> let (a, c) = take (k - 1) r in (x :: a, c) | [] -> ([], [])) in
+             let (mine, others) = take n !rest in
+             rest := others;
+             (match WireSem.denote_seq WireSem.rinit mine with
+              | Some ds ->
+                  Stdlib.List.iter2 (fun d a -> match a with
+                    | Some a -> if render d <> render a then all_eq := false
+                    | None -> all_eq := false) ds seg
+              | None -> den_ok := false)) !segments;
+           add "go_den" (if !den_ok then "ok" else "fail");
+           add "go_den_eq_abs" (if !den_ok && !all_eq then "1" else "0")
+       | Some ws -> add "go_parse" ("count" ^ string_of_int (Stdlib.List.length ws))
+       | None -> add "go_parse" "fail")
+    end;
+    Buffer.contents b
+  | _ -> failwith "seq: bad line"
+
+let run_any line =
+  if String.length line > 4 && String.sub line 0 4 = "seq\t" then run_seq line else run line
+
+let () = register "main" run_any
